@@ -60,7 +60,10 @@ static void varintBitstreamSet(vbits *const dst, const size_t startBitOffset,
 
     /* This assert triggers if your 'val' is too big to be stored
      * using 'bitsPerValue' */
-    valueMask = (~0ULL >> (BITS_PER_SLOT - bitsPerValue));
+    /* All-ones of the slot width (not of unsigned long long) so the mask is
+     * exact for 32-bit words too */
+    valueMask =
+        (vbitsVal)((vbits) ~(vbits)0 >> (BITS_PER_SLOT - bitsPerValue));
     assert(0 == (~valueMask & val));
 
     if (lowDataBitPosition >= 0) {
@@ -95,7 +98,10 @@ static vbitsVal varintBitstreamGet(const vbits *const src,
     highDataBitPosition = BITS_PER_SLOT - (startBitOffset % BITS_PER_SLOT);
     lowDataBitPosition = highDataBitPosition - (int32_t)bitsPerValue;
 
-    valueMask = (~0ULL >> (BITS_PER_SLOT - bitsPerValue));
+    /* All-ones of the slot width (not of unsigned long long) so the mask is
+     * exact for 32-bit words too */
+    valueMask =
+        (vbitsVal)((vbits) ~(vbits)0 >> (BITS_PER_SLOT - bitsPerValue));
 
     if (lowDataBitPosition >= 0) {
         out = (in[0] >> lowDataBitPosition) & valueMask;
